@@ -70,7 +70,8 @@ impl GenSpec {
         match self {
             GenSpec::Det { ty, ctor: Ctor::Seed(s) } => adapter::from_seed(*ty, &s.bytes),
             GenSpec::Det { ty, ctor: Ctor::U64(x) } => adapter::seed_from_u64(*ty, *x),
-            GenSpec::Jitter { script, rounds } => adapter::jitter_gen(script.clone(), Some(*rounds), JITTER_BUDGET),
+            // rounds == 0: keep whatever `new_with_timer` starts with (no set_rounds call)
+            GenSpec::Jitter { script, rounds } => adapter::jitter_gen(script.clone(), if *rounds == 0 { None } else { Some(*rounds) }, JITTER_BUDGET),
         }
     }
     pub fn class(&self) -> String {
